@@ -21,28 +21,34 @@ package heap
 //@     forall k int :: 0 <= k && k < len(pq.queue) ==> pq.queue[0].priority <= pq.queue[k].priority
 
 //@ func NewItem
+//@   params name, priority
 //@   fresh result
 //@   ensures [C01] result != nil && result.name == name && result.priority == priority
 
 //@ func Item.Name
+//@   params i
 //@   requires i != nil
 //@   ensures [C01] result == i.name
 
 //@ func Item.Priority
+//@   params i
 //@   requires i != nil
 //@   ensures [C01] result == i.priority
 
 //@ func priorityQueue.Len
+//@   params pq
 //@   requires pq != nil
 //@   ensures [C01] result == len(pq.queue)
 
 //@ func priorityQueue.Less
+//@   params pq, i, j
 //@   tags C01
 //@   safety nil, index
 //@   requires wf(pq) && 0 <= i && i < len(pq.queue) && 0 <= j && j < len(pq.queue)
 //@   ensures [C01] result == (pq.queue[i].priority < pq.queue[j].priority)
 
 //@ func priorityQueue.Swap
+//@   params pq, i, j
 //@   tags C01
 //@   safety nil, index, nilmap-write
 //@   requires wf(pq) && 0 <= i && i < len(pq.queue) && 0 <= j && j < len(pq.queue)
@@ -55,6 +61,7 @@ package heap
 //@   ensures [C01] view-unchanged: forall s string :: has(pq, s) == old(has(pq, s)) && (has(pq, s) ==> prio(pq, s) == old(prio(pq, s)))
 
 //@ func priorityQueue.Push
+//@   params pq, x
 //@   tags C01
 //@   safety nil, assert-type, nilmap-write
 //@   requires wf(pq) && typeis(x, *Item) && unbox(x, *Item) != nil
@@ -67,6 +74,7 @@ package heap
 //@   ensures [C01] view-extended: forall s string :: has(pq, s) == (old(has(pq, s)) || s == unbox(x, *Item).name)
 
 //@ func priorityQueue.Pop
+//@   params pq
 //@   tags C01
 //@   safety nil, index, nilmap-write
 //@   requires wf(pq) && len(pq.queue) > 0
@@ -78,6 +86,7 @@ package heap
 //@   ensures [C01] view-shrunk: forall s string :: has(pq, s) == (old(has(pq, s)) && s != old(pq.queue[len(pq.queue)-1].name))
 
 //@ func priorityQueue.search
+//@   params pq, name
 //@   tags C01
 //@   safety nil, index
 //@   requires wf(pq)
@@ -159,6 +168,7 @@ package heap
 //@ pure top(h *Heap) *Item = h.pq.queue[0]
 
 //@ func newPriorityQueue
+//@   params items
 //@   tags C01
 //@   safety nil, index, nilmap-write, alloc
 //@   requires forall k int :: 0 <= k && k < len(items) ==> items[k] != nil && allocated(items[k])
@@ -176,6 +186,7 @@ package heap
 //@   ensures [C01] input-untouched: forall p *Item :: !fresh(p) ==> p.name == old(p.name) && p.priority == old(p.priority)
 
 //@ func New
+//@   params items
 //@   tags C01
 //@   requires forall k int :: 0 <= k && k < len(items) ==> items[k] != nil && allocated(items[k])
 //@   requires distinct-names: forall a int, b int :: 0 <= a && a < b && b < len(items) ==> items[a].name != items[b].name
@@ -184,10 +195,12 @@ package heap
 //@   ensures [C01] view-sound: forall s string :: hhas(result, s) ==> (exists k int :: 0 <= k && k < len(items) && items[k].name == s)
 
 //@ func Heap.Len
+//@   params h
 //@   requires h != nil && h.pq != nil
 //@   ensures [C01] result == len(h.pq.queue)
 
 //@ func Heap.Peek
+//@   params h
 //@   tags C01
 //@   safety nil, index
 //@   requires hwf(h)
@@ -198,6 +211,7 @@ package heap
 //@   ensures [C01] !result1 ==> result0 == nil && (forall s string :: !hhas(h, s))
 
 //@ func Heap.Search
+//@   params h, name
 //@   tags C01
 //@   safety nil, index
 //@   requires hwf(h)
@@ -205,6 +219,7 @@ package heap
 //@   ensures [C01] result1 ==> result0 == hprio(h, name)
 
 //@ func Heap.Push
+//@   params h, name, priority
 //@   tags C01
 //@   requires hwf(h) && !hhas(h, name)
 //@   modifies h.pq.queue, arrays(*Item), mapof(h.pq.names), heap(Item)
@@ -215,6 +230,7 @@ package heap
 //@   ensures [C01] items-keep-identity: forall p *Item :: !fresh(p) ==> p.name == old(p.name) && p.priority == old(p.priority)
 
 //@ func Heap.Pop
+//@   params h
 //@   tags C01
 //@   safety assert-type
 //@   requires hwf(h) && len(h.pq.queue) > 0
@@ -228,6 +244,7 @@ package heap
 //@   ensures [C01] others-keep-priority: forall s string :: hhas(h, s) ==> hprio(h, s) == old(hprio(h, s))
 
 //@ func Heap.Update
+//@   params h, name, newPriority
 //@   tags C01
 //@   requires hwf(h)
 //@   modifies elems(h.pq.queue), mapof(h.pq.names), heap(Item)
@@ -238,6 +255,7 @@ package heap
 //@   ensures [C01] items-keep-name: forall p *Item :: p.name == old(p.name)
 
 //@ func Heap.Delete
+//@   params h, name
 //@   tags C01
 //@   requires hwf(h)
 //@   modifies h.pq.queue, arrays(*Item), mapof(h.pq.names), heap(Item)
